@@ -76,6 +76,25 @@ void optional_copies(nitro::lang::optional<bool>& lvalue, const nitro::lang::opt
     (void)static_cast<bool>(from_moved);
 }
 
+// which assignment operator does `dst = src` select for each value category of a fixed_vector source?
+void fixed_vector_assignments(nitro::lang::fixed_vector<int>& dst, nitro::lang::fixed_vector<int>& lvalue, const nitro::lang::fixed_vector<int>& clvalue)
+{
+    dst = lvalue;
+    dst = clvalue;
+    dst = std::move(lvalue);
+    dst = { 1, 2 };
+}
+// a value of the payload type makes the optional engaged - also when the payload is pointer-like and the value is nullptr
+void optional_values(nitro::lang::optional<const int*>& target)
+{
+    nitro::lang::optional<const int*> from_null(nullptr);
+    target = nullptr;
+    (void)*from_null;
+    nitro::lang::optional<const int*> copy(from_null); // (instantiates the copy operations for this payload as well)
+    copy = target;
+    (void)static_cast<bool>(copy);
+}
+
 void use_optionals()
 {
     use_optional<int>(1);
